@@ -2,12 +2,41 @@ import Goyang.Spec.Uses
 import Goyang.Lemmas.Uses
 import Goyang.Lemmas.UsesVisit
 import Goyang.Lemmas.UsesCache
+import Goyang.Lemmas.UsesCacheInv
+import Goyang.Lemmas.UsesFuel
 import Goyang.Lemmas.Deviate
 import Goyang.Model.TypesLite
 /-
 C06 — every use of a grouping is an independent, faithful, locally scoped copy.
 Property theorems only; helper lemmas live in Goyang/Lemmas/Uses.lean (binding, merge, the `uses`
-case of `toEntry`) and Goyang/Lemmas/Deviate.lean (frame of `updateAt` / `removeAt`).
+case of `toEntry`), Lemmas/UsesVisit.lean (completeness of the search order), Lemmas/UsesCache.lean
+(the `uses` step comes first also for augment, grouping, module and submodule statements; what the
+two caches do on a hit and on a miss), Lemmas/UsesCacheInv.lean (how the conversion state moves
+through `toEntry`: the caches only grow at their end, nothing binds a grouping under conversion),
+Lemmas/UsesFuel.lean (the fuel side condition holds at every call reached from `processAll`'s
+top-level calls) and Goyang/Lemmas/Deviate.lean (frame of `updateAt` / `removeAt`).
+
+Status of the former gaps.
+* Search order: `search_order_sound` + `search_order_complete` = `search_order_iff_reach`: the
+  search order from a file lists exactly the files reached through include / belongs-to
+  statements, when the reached files have pairwise different names (`names_distinct_of_nodup`:
+  e.g. when no two loaded (sub)modules share a name).  Without that hypothesis completeness is
+  false of the specification *and* of Go's `FindGrouping` (both mark names):
+  `search_order_needs_distinct_names`, witness `ExN` (a submodule named like its module), replayed
+  on the Go code (`Process` answers "unknown group" together with a circular-dependency error).
+* `uses` first: `container_gets_copy`, `augment_gets_copy`, `grouping_gets_copy`,
+  `module_gets_copy` (module and submodule) and `Lemmas.Uses.toEntry_*_uses_first` for list, case,
+  input, output, notification — every statement kind with a `uses` field.  Caches:
+  `later_uses_same` / `module_cached_same` (hit), `cache_miss_stores`, `first_use_fills_cache`,
+  `cached_entry_persists` (a miss converts, binds the grouping to the entry it returns, and the
+  binding stays for the rest of the run).
+* Fuel: `process_fuel_reaches_bindFuel`, `uses_scope_in_process`, `uses_is_copy_in_process`,
+  `container_gets_copy_in_process` (and `grouping_…`, `module_…`, `augment_gets_copy_in_process`): at every call reached from a top-level call of `processAll`
+  (`Lemmas.Uses.Reached`) the fuel handed to `findGrouping` is at least `bindFuel`; the explicit
+  bound of `uses_scope` / `uses_is_copy` is gone there.
+Still hypotheses: `WellFormedRef` (two RFC requirements on a prefixed reference), no (sub)module
+statement nested below the using (sub)module statement (`hinner`), free and distinct names for the
+`…_is_copy` / `…_gets_copy` forms (`uses_adds_only_copies` holds without).
 
 Reading aid.
 * `Spec.Uses.bindGrouping reg linked root inner name` is the declarative binding of the grouping
@@ -44,7 +73,7 @@ backing array), not drv_res.
 -/
 namespace Goyang.Props.C06
 open Goyang.Model Goyang.Spec.Uses
-open Goyang.Lemmas.Uses (bindFuel importedErrors names usesStep found ReachNamesDistinct)
+open Goyang.Lemmas.Uses (bindFuel importedErrors names usesStep found ReachNamesDistinct Reached)
 open Goyang.Lemmas.Deviate (NameStable)
 
 /-! ### binding -/
@@ -382,6 +411,138 @@ theorem module_gets_copy (env : Env) (fuel : Nat) (root : Mod) (u : Stmt)
   rw [h1]
   simp [Lemmas.Uses.dir0, Entry.dir]
 
+/-! ### the calls `processAll` makes: no fuel side condition
+
+`Reached env fuel root scope n visiting` (Lemmas/UsesFuel.lean): the calls of `toEntry` reachable
+from the top-level calls of `processAll` — a loaded (sub)module statement, or one of its deviate
+statements, with fuel `entryFuel reg` and nothing under conversion — through the call sites of
+`toEntry`'s body: a substatement, the grouping a `uses` statement resolves to, an included
+submodule (`Lemmas.Fuel.Callee`; by `Lemmas.Fuel.body_congr` the body calls itself nowhere else).
+Along every such path the remaining fuel stays above C01's measure by at least
+`entryFuel reg - entryNeed reg`, and `bindFuel` is at most twice that plus 18
+(`Lemmas.Uses.bindFuel_le_slack`, arithmetic over the statement counts of the registry). -/
+
+/-- **process_fuel_reaches_bindFuel.**  At every `uses` statement reached from a top-level call of
+`processAll`, the fuel `toEntry` hands to `findGrouping` is at least `bindFuel`: the side condition
+of `uses_scope` / `uses_is_copy` / `container_gets_copy` holds by itself. -/
+theorem process_fuel_reaches_bindFuel (env : Env) (fuel : Nat) (root : Mod) (inner : List Stmt) (u : Stmt)
+    (visiting : List NodeId) (hr : Reached env (fuel + 1) root (inner ++ [root.stmt]) u visiting) (hu : u.kw = "uses") :
+    bindFuel env.reg root inner ≤ 2 * fuel + 16 :=
+  Lemmas.Uses.reached_bindFuel env hr (by simp [Lemmas.Fuel.isTracked, hu])
+
+/-- **uses_scope_in_process.**  `uses_scope` for the calls `processAll` makes, without the fuel
+bound: a reached `uses` statement converts to the conversion of the grouping it denotes, with the
+grouping's own root module and ancestor chain, with one unit of fuel less (there is one). -/
+theorem uses_scope_in_process (env : Env) (fuel : Nat) (root : Mod) (inner : List Stmt) (u : Stmt) (visiting : List NodeId)
+    (st : TState) (hr : Reached env fuel root (inner ++ [root.stmt]) u visiting) (hu : u.kw = "uses")
+    (hinner : ∀ n ∈ inner, isModuleStmt n = false) (hwf : WellFormedRef root inner u.arg) :
+    toEntry env fuel root (inner ++ [root.stmt]) u visiting st =
+      match bindGrouping env.reg env.linked root inner u.arg with
+      | none => (errorEntry root u "unknown-group", st)
+      | some r => toEntry env (fuel - 1) r.2.1 r.2.2 r.1 visiting st := by
+  obtain ⟨h1, hb⟩ := Lemmas.Uses.reached_bindFuel' env hr (by simp [Lemmas.Fuel.isTracked, hu])
+  obtain ⟨k, rfl⟩ : ∃ k, fuel = k + 1 := ⟨fuel - 1, by omega⟩
+  exact uses_scope env k root inner u visiting st hu hinner hwf hb
+
+/-- **uses_is_copy_in_process.**  `uses_is_copy` for the calls `processAll` makes, without the fuel
+bound. -/
+theorem uses_is_copy_in_process (env : Env) (fuel : Nat) (root : Mod) (inner : List Stmt) (u : Stmt) (visiting : List NodeId)
+    (acc : Entry × TState) (r : GroupingRef) (hr : Reached env (fuel + 1) root (inner ++ [root.stmt]) u visiting)
+    (hu : u.kw = "uses") (hinner : ∀ n ∈ inner, isModuleStmt n = false)
+    (hwf : WellFormedRef root inner u.arg)
+    (hbind : bindGrouping env.reg env.linked root inner u.arg = some r)
+    (hfresh : ∀ v ∈ denoteGrouping env fuel r visiting acc.2, v.name ∉ names acc.1)
+    (hnodup : ((denoteGrouping env fuel r visiting acc.2).map (·.name)).Nodup) :
+    let ge := (toEntry env fuel r.2.1 r.2.2 r.1 visiting acc.2).1
+    let e' := (usesStep env (fuel + 1) root (inner ++ [root.stmt]) visiting acc u).1
+    e'.dir = acc.1.dir ++ denoteGrouping env fuel r visiting acc.2 ∧
+    CopyOfL (e'.dir.drop acc.1.dir.length) ge.dir ∧
+    e'.d = { acc.1.d with errors := acc.1.d.errors ++ importedErrors ge } ∧
+    e'.inp = acc.1.inp ∧ e'.out = acc.1.out :=
+  uses_is_copy env fuel root inner u visiting acc r hu hinner hwf
+    (process_fuel_reaches_bindFuel env fuel root inner u visiting hr hu) hbind hfresh hnodup
+
+/-- **container_gets_copy_in_process.**  `container_gets_copy` for a container statement reached
+from a top-level call of `processAll` (its `uses` substatement is then reached as well). -/
+theorem container_gets_copy_in_process (env : Env) (fuel : Nat) (root : Mod) (inner : List Stmt) (n u : Stmt)
+    (visiting : List NodeId) (st : TState) (r : GroupingRef)
+    (hr : Reached env (fuel + 2) root (inner ++ [root.stmt]) n visiting) (hn : n.kw = "container") (hu : u.kw = "uses")
+    (huses : n.all "uses" = [u]) (hinner : ∀ x ∈ inner, isModuleStmt x = false)
+    (hwf : WellFormedRef root (n :: inner) u.arg)
+    (hbind : bindGrouping env.reg env.linked root (n :: inner) u.arg = some r)
+    (hnodup : ((denoteGrouping env fuel r visiting st).map (·.name)).Nodup) :
+    ∃ tail, (toEntry env (fuel + 2) root (inner ++ [root.stmt]) n visiting st).1.dir =
+      denoteGrouping env fuel r visiting st ++ tail := by
+  have hnt : Lemmas.Fuel.isTracked n = false := by simp [Lemmas.Fuel.isTracked, hn]
+  have hum : u ∈ n.subs := Lemmas.Fuel.mem_all_subs (k := "uses") (by rw [huses]; exact List.mem_cons_self ..)
+  have hru := Lemmas.Uses.Reached.child' hr (by rw [hnt]; simp) hum
+  have hv : Lemmas.Fuel.visiting' root n visiting = visiting := by simp [Lemmas.Fuel.visiting', hnt]
+  rw [hv] at hru
+  exact container_gets_copy env fuel root inner n u visiting st r hn hu huses hinner hwf
+    (process_fuel_reaches_bindFuel env fuel root (n :: inner) u visiting hru hu) hbind hnodup
+
+/-- **grouping_gets_copy_in_process.**  `grouping_gets_copy` for a grouping statement reached from
+a top-level call of `processAll`. -/
+theorem grouping_gets_copy_in_process (env : Env) (fuel : Nat) (root : Mod) (inner : List Stmt) (n u : Stmt)
+    (visiting : List NodeId) (st : TState) (r : GroupingRef)
+    (hr : Reached env (fuel + 2) root (inner ++ [root.stmt]) n visiting) (hn : n.kw = "grouping") (hu : u.kw = "uses")
+    (huses : n.all "uses" = [u]) (hinner : ∀ x ∈ inner, isModuleStmt x = false)
+    (hmiss : st.gcache.find? (·.1 == nodeId root n) = none) (hnv : visiting.contains (nodeId root n) = false)
+    (hwf : WellFormedRef root (n :: inner) u.arg)
+    (hbind : bindGrouping env.reg env.linked root (n :: inner) u.arg = some r)
+    (hnodup : ((denoteGrouping env fuel r (nodeId root n :: visiting) st).map (·.name)).Nodup) :
+    ∃ tail, (toEntry env (fuel + 2) root (inner ++ [root.stmt]) n visiting st).1.dir =
+      denoteGrouping env fuel r (nodeId root n :: visiting) st ++ tail := by
+  have hnt : Lemmas.Fuel.isTracked n = true := by simp [Lemmas.Fuel.isTracked, hn]
+  have hum : u ∈ n.subs := Lemmas.Fuel.mem_all_subs (k := "uses") (by rw [huses]; exact List.mem_cons_self ..)
+  have hru := Lemmas.Uses.Reached.child' hr (by rw [hnv]; simp) hum
+  have hv : Lemmas.Fuel.visiting' root n visiting = nodeId root n :: visiting := by simp [Lemmas.Fuel.visiting', hnt]
+  rw [hv] at hru
+  exact grouping_gets_copy env fuel root inner n u visiting st r hn hu huses hinner hmiss hnv hwf
+    (process_fuel_reaches_bindFuel env fuel root (n :: inner) u _ hru hu) hbind hnodup
+
+/-- **module_gets_copy_in_process.**  `module_gets_copy` for the top-level calls of `processAll`
+themselves (and for every (sub)module statement reached through an include). -/
+theorem module_gets_copy_in_process (env : Env) (fuel : Nat) (root : Mod) (u : Stmt)
+    (visiting : List NodeId) (st : TState) (r : GroupingRef)
+    (hr : Reached env (fuel + 2) root [] root.stmt visiting)
+    (hn : root.stmt.kw = "module" ∨ root.stmt.kw = "submodule") (hu : u.kw = "uses")
+    (huses : root.stmt.all "uses" = [u])
+    (hmiss : st.cache.find? (·.1 == root.seq) = none) (hnv : visiting.contains (nodeId root root.stmt) = false)
+    (hwf : WellFormedRef root [] u.arg)
+    (hbind : bindGrouping env.reg env.linked root [] u.arg = some r)
+    (hnodup : ((denoteGrouping env fuel r (nodeId root root.stmt :: visiting) st).map (·.name)).Nodup) :
+    ∃ tail, (toEntry env (fuel + 2) root [] root.stmt visiting st).1.dir =
+      denoteGrouping env fuel r (nodeId root root.stmt :: visiting) st ++ tail := by
+  have hnt : Lemmas.Fuel.isTracked root.stmt = true := by
+    rcases hn with hn | hn <;> simp [Lemmas.Fuel.isTracked, hn]
+  have hum : u ∈ root.stmt.subs := Lemmas.Fuel.mem_all_subs (k := "uses") (by rw [huses]; exact List.mem_cons_self ..)
+  have hru := Lemmas.Uses.Reached.child' hr (by rw [hnv]; simp) hum
+  have hv : Lemmas.Fuel.visiting' root root.stmt visiting = nodeId root root.stmt :: visiting := by
+    simp [Lemmas.Fuel.visiting', hnt]
+  rw [hv] at hru
+  exact module_gets_copy env fuel root u visiting st r hn hu huses hmiss hnv hwf
+    (process_fuel_reaches_bindFuel env fuel root [] u _ hru hu) hbind hnodup
+
+/-- **augment_gets_copy_in_process.**  `augment_gets_copy` for an augment statement reached from a
+top-level call of `processAll`. -/
+theorem augment_gets_copy_in_process (env : Env) (fuel : Nat) (root : Mod) (inner : List Stmt) (n u : Stmt)
+    (visiting : List NodeId) (st : TState) (r : GroupingRef)
+    (hr : Reached env (fuel + 2) root (inner ++ [root.stmt]) n visiting) (hn : n.kw = "augment") (hu : u.kw = "uses")
+    (huses : n.all "uses" = [u]) (hinner : ∀ x ∈ inner, isModuleStmt x = false)
+    (hwf : WellFormedRef root (n :: inner) u.arg)
+    (hbind : bindGrouping env.reg env.linked root (n :: inner) u.arg = some r)
+    (hnodup : ((denoteGrouping env fuel r visiting st).map (·.name)).Nodup) :
+    ∃ tail, (toEntry env (fuel + 2) root (inner ++ [root.stmt]) n visiting st).1.dir =
+      denoteGrouping env fuel r visiting st ++ tail := by
+  have hnt : Lemmas.Fuel.isTracked n = false := by simp [Lemmas.Fuel.isTracked, hn]
+  have hum : u ∈ n.subs := Lemmas.Fuel.mem_all_subs (k := "uses") (by rw [huses]; exact List.mem_cons_self ..)
+  have hru := Lemmas.Uses.Reached.child' hr (by rw [hnt]; simp) hum
+  have hv : Lemmas.Fuel.visiting' root n visiting = visiting := by simp [Lemmas.Fuel.visiting', hnt]
+  rw [hv] at hru
+  exact augment_gets_copy env fuel root inner n u visiting st r hn hu huses hinner hwf
+    (process_fuel_reaches_bindFuel env fuel root (n :: inner) u visiting hru hu) hbind hnodup
+
 /-- **uses_adds_only_copies.**  Without the freshness assumptions (a name collision is an error
 recorded on the using entry and the colliding child is dropped): every child of the using entry
 after the step is one of its former children or one of the grouping's own children, unchanged.
@@ -470,6 +631,35 @@ theorem cache_miss_stores (env : Env) (fuel : Nat) (root : Mod) (scope : List St
         { st' with cache := st'.cache ++ [(root.seq, (toEntry env (fuel + 1) root scope n visiting st).1)] }) :=
   ⟨fun hkw hmiss => Lemmas.Uses.toEntry_grouping_stores env fuel root scope n visiting st hkw hmiss hnv,
    fun hkw hmiss => Lemmas.Uses.toEntry_module_stores env fuel root scope n visiting st hkw hmiss hnv⟩
+
+/-- **first_use_fills_cache.**  The first conversion of a grouping (not in the cache, not under
+conversion) returns an entry `e` and a state in which the grouping is bound to `e`: no nested
+conversion has bound the grouping in between (nothing binds a grouping that is under conversion).
+Hence every later conversion of it in that state — every later `uses`, from whatever scope, with
+whatever is under conversion then — returns exactly `e` and leaves the state alone. -/
+theorem first_use_fills_cache (env : Env) (fuel fuel' : Nat) (groot : Mod) (gscope gscope' : List Stmt) (g : Stmt)
+    (visiting visiting' : List NodeId) (st : TState) (hkw : g.kw = "grouping")
+    (hmiss : st.gcache.find? (·.1 == nodeId groot g) = none) (hnv : visiting.contains (nodeId groot g) = false) :
+    let first := toEntry env (fuel + 1) groot gscope g visiting st
+    first.2.gcache.find? (·.1 == nodeId groot g) = some (nodeId groot g, first.1) ∧
+    toEntry env (fuel' + 1) groot gscope' g visiting' first.2 = (first.1, first.2) := by
+  intro first
+  have h := Lemmas.Uses.toEntry_grouping_fills env fuel groot gscope g visiting st hkw hmiss hnv
+  exact ⟨h, Lemmas.Uses.toEntry_grouping_cached env fuel' groot gscope' g visiting' first.2 _ _ hkw h⟩
+
+/-- **cached_entry_persists.**  The grouping cache only grows at its end: whatever `toEntry`
+converts next (any statement, any scope), a grouping that is bound to `e` stays bound to `e` —
+so `later_uses_same` applies in every later state of the run, and all uses of a grouping within one
+`Process` run get the entry its first use produced. -/
+theorem cached_entry_persists (env : Env) (fuel fuel' : Nat) (root groot : Mod) (scope gscope : List Stmt) (n g : Stmt)
+    (visiting visiting' : List NodeId) (st : TState) (k : NodeId) (e : Entry) (hkw : g.kw = "grouping")
+    (h : st.gcache.find? (·.1 == nodeId groot g) = some (k, e)) :
+    let st' := (toEntry env fuel root scope n visiting st).2
+    st'.gcache.find? (·.1 == nodeId groot g) = some (k, e) ∧
+    toEntry env (fuel' + 1) groot gscope g visiting' st' = (e, st') := by
+  intro st'
+  have h' := Lemmas.Uses.gcache_binding_stays env fuel root scope n visiting st (nodeId groot g) (k, e) h
+  exact ⟨h', Lemmas.Uses.toEntry_grouping_cached env fuel' groot gscope g visiting' st' k e hkw h'⟩
 
 /-- **module_cached_same.**  A (sub)module that has been converted before is not converted again:
 the module cache answers with the stored entry, from whatever scope and in-progress set, and the
@@ -679,6 +869,33 @@ example : ∃ tail, (toEntry env 42 m ([] ++ [m.stmt]) c1 [] {}).1.dir = denoteG
   container_gets_copy env 40 m [] c1 u1 [] {} (gS, m, [mS]) rfl rfl rfl (by simp) (Or.inl (by decide)) (by decide) rfl
     (by decide +kernel)
 
+-- the calls `processAll` makes: container c1 is reached from the top-level call on module m (fuel
+-- `entryFuel reg`, one unit spent), its `uses g` one step further; `uses_scope_in_process` and
+-- `container_gets_copy_in_process` apply without any fuel hypothesis
+theorem c1_reached : Reached env (entryFuel env.reg - 1) m ([] ++ [m.stmt]) c1 [nodeId m mS] :=
+  Lemmas.Uses.Reached.child' (Reached.top (List.mem_cons_self ..)) (by decide) (by simp [m, mS, st, Stmt.subs])
+example : ∃ k, entryFuel env.reg - 1 = k + 2 := ⟨entryFuel env.reg - 3, by decide⟩
+example (st : TState) : toEntry env (entryFuel env.reg - 1 - 1) m ([c1] ++ [m.stmt]) u1 [nodeId m mS] st =
+    toEntry env (entryFuel env.reg - 1 - 1 - 1) m [mS] gS [nodeId m mS] st := by
+  have hr : Reached env (entryFuel env.reg - 1 - 1) m ([c1] ++ [m.stmt]) u1 [nodeId m mS] :=
+    Lemmas.Uses.Reached.child' c1_reached (by decide) (by simp [c1, Ex.st, Stmt.subs])
+  rw [uses_scope_in_process env _ m [c1] u1 _ st hr rfl (by decide) (Or.inl (by decide))]
+  have hb : bindGrouping env.reg env.linked m [c1] u1.arg = some (gS, m, [mS]) := rfl
+  rw [hb]
+
+-- `first_use_fills_cache`: grouping g converted from module level, then used again from inside c3/d
+-- (where another g shadows it for name lookup — the cache is keyed by the statement, not the name)
+example : toEntry env 30 m [dS, c3, mS] gS [nodeId m mS] (toEntry env 41 m [mS] gS [] {}).2 =
+    ((toEntry env 41 m [mS] gS [] {}).1, (toEntry env 41 m [mS] gS [] {}).2) :=
+  (first_use_fills_cache env 40 29 m [mS] [dS, c3, mS] gS [] [nodeId m mS] {} rfl rfl rfl).2
+-- `cached_entry_persists`: after converting container c3 (which converts the inner g) the binding of
+-- the outer g is still there
+example : ((toEntry env 41 m [mS] c3 [] (toEntry env 41 m [mS] gS [] {}).2).2.gcache.find? (·.1 == nodeId m gS)).map (·.1) =
+    some (nodeId m gS) := by
+  have h := (first_use_fills_cache env 40 0 m [mS] [mS] gS [] [] {} rfl rfl rfl).1
+  rw [(cached_entry_persists env 41 0 m m [mS] [mS] c3 gS [] [] _ _ _ rfl h).1]
+  rfl
+
 -- the search order lists exactly the reached files: the hypothesis of `search_order_complete` holds
 -- of this registry (three loaded files, three names), and the submodule is reached from the module
 example : ReachNamesDistinct reg linked m := names_distinct_of_nodup reg linked m (List.mem_cons_self ..) (by decide)
@@ -720,6 +937,16 @@ def envT : Env := { reg := { mods := [t], modules := [("t", 0)] }, tres := types
 example : ∃ tail, (toEntry envT 42 t [] t.stmt [] {}).1.dir = denoteGrouping envT 40 (tgS, t, [tS]) [nodeId t tS] {} ++ tail :=
   module_gets_copy envT 40 t utS [] {} (tgS, t, [tS]) (Or.inl rfl) rfl rfl rfl rfl (Or.inl (by decide)) (by decide) rfl
     (by decide +kernel)
+-- the top-level call `processAll` makes on module t, with the model's fuel, no fuel hypothesis
+example : ∃ k, entryFuel envT.reg = k + 2 ∧ ∃ tail, (toEntry envT (entryFuel envT.reg) t [] t.stmt [] {}).1.dir =
+    denoteGrouping envT k (tgS, t, [tS]) [nodeId t tS] {} ++ tail := by
+  refine ⟨entryFuel envT.reg - 2, by decide, ?_⟩
+  have hf : entryFuel envT.reg = entryFuel envT.reg - 2 + 2 := by decide
+  have hr : Reached envT (entryFuel envT.reg - 2 + 2) t [] t.stmt [] := hf ▸ Reached.top (List.mem_cons_self ..)
+  have h := module_gets_copy_in_process envT (entryFuel envT.reg - 2) t utS [] {} (tgS, t, [tS]) hr (Or.inl rfl) rfl rfl rfl rfl
+    (Or.inl (by decide)) rfl (by decide +kernel)
+  rw [← hf] at h
+  exact h
 example : (toEntry envT 42 t [] t.stmt [] {}).1.dir.map (·.name) = ["q", "z"] := by decide +kernel
 -- the module cache after that conversion holds the entry it returned (`cache_miss_stores`), and a
 -- second conversion answers from it (`module_cached_same`)
@@ -775,12 +1002,12 @@ def a : Mod := { seq := 1, stmt := aS }
 def sm : Mod := { seq := 2, stmt := smS }
 def reg : Registry := { mods := [m, a, sm], modules := [("m", 0)], subModules := [("a", 1), ("m", 2)] }
 
-theorem reached : Reach reg [0, 1, 2] a sm :=
+theorem clash_reached : Reach reg [0, 1, 2] a sm :=
   Reach.tail (Reach.tail (Reach.refl _) (Spec.Uses.Step.owner (by decide) (by decide) rfl))
     (Spec.Uses.Step.incl (i := st "M" "include" "m" 3 3 []) (by decide) (by decide)
       (show st "M" "include" "m" 3 3 [] ∈ [st "M" "include" "a" 2 3 [], st "M" "include" "m" 3 3 []] by simp) rfl)
 
-theorem order : (searchOrder reg [0, 1, 2] a).map (·.seq) = [1, 0, 1] := by decide +kernel
+theorem clash_order : (searchOrder reg [0, 1, 2] a).map (·.seq) = [1, 0, 1] := by decide +kernel
 
 example : bindGrouping reg [0, 1, 2] a [st "A" "container" "c" 2 3 [st "A" "uses" "g" 2 15 []]] "g" = none := by
   decide +kernel
@@ -794,10 +1021,10 @@ end ExN
 `a` and is not in the search order from `a`. -/
 theorem search_order_needs_distinct_names :
     ∃ (reg : Registry) (linked : List Nat) (m x : Mod), Reach reg linked m x ∧ x ∉ searchOrder reg linked m := by
-  refine ⟨ExN.reg, [0, 1, 2], ExN.a, ExN.sm, ExN.reached, ?_⟩
+  refine ⟨ExN.reg, [0, 1, 2], ExN.a, ExN.sm, ExN.clash_reached, ?_⟩
   intro h
   have h2 : ExN.sm.seq ∈ (searchOrder ExN.reg [0, 1, 2] ExN.a).map (·.seq) := List.mem_map_of_mem h
-  rw [ExN.order] at h2
+  rw [ExN.clash_order] at h2
   revert h2
   decide
 
